@@ -36,7 +36,8 @@ RULE = ("cases: CouplingMarkovChain(StepModel in 4 representations x variation f
         "SDE own-grid stream (F-C03-2): real coupled driver paths of CouplingSDE (finite-variation StepModel driver, DiagX and Constant on the same driver and seeds, "
         "level 1; thorough: 1-2): end value of the object's COARSE row vs the REAL level-(l-1) MarkovChainSDE run on the coarse path restricted to its own time grid "
         "(coarse jump times + maturity) with the same coarse jump / diffusion values, both also against the closed forms (1e-9).  "
-        "non-trivial = distinct (chain, level, increment) with an odd increment; a simulated path with at least one jump")
+        "non-trivial = distinct (chain, level, increment) with an odd increment; a simulated path with at least one jump.  "
+        "TIE spot check (wave 8): the generated TIE definitions are spot-checked against the running Python on every run -- groups prob_right (relative 2^-50: one float division), q_vector, intensity_1d, dispatch_c1d, dispatch_nd2 of harness/tie_selftest.py (12 cases each, kind tie_spot): the GenTieCoupling / GenTieChain definitions evaluated by vm_compute against CouplingSimulation.probability_to_right_jump, create_q_vector, compute_intensity_of_jumps and left_point / right_point / middle / grid[position] called on real CTMCGrid and Coordinate objects (Coordinate1D and CoordinateND variants, two-axis grids of unequal lengths included)")
 MODELLED = ["CouplingSimulation.probability_to_right_jump / coupling_state / coupling_states_for_a_slice (exact correspondence groups state1d, "
             "prob1d, slice1d), next_level bookkeeping = run_levels of C03_drift_diffusion_frozen (group levels: every level, both call modes "
             "path managers / None, finite and infinite variation; group sdelevels: the driver of CouplingSDE at levels 1-3), CouplingSimulation.simulate_diffusion_with_coupling of the fixed-dates "
@@ -67,7 +68,8 @@ MODELLED = ["CouplingSimulation.probability_to_right_jump / coupling_state / cou
             "TIE (wave 6): CouplingSimulation.probability_to_right_jump / coupling_state and CTMCGrid.middle / left_point / right_point are now REGENERATED "
             "from the source on every run (Gen/GenTieCoupling.v, Gen/GenTieChain.v, py2coq loop plug-in) and proved equal to the hand model by "
             "C03_gen_probability_to_right_jump_is_model / C03_gen_coupling_state_is_model / C03_gen_middle_is_model",
-            "np.sqrt in the equivalent diffusion coefficient: the model works with squares"]
+            "np.sqrt in the equivalent diffusion coefficient: the model works with squares",
+            "TIE spot check (wave 8): the generated TIE definitions are spot-checked against the running Python on every run (correspond -> tie_selftest.selftest_spotchecks on the GenTie modules of GEN_DEPS: the functions are called on real CTMCGrid / Coordinate objects, so the singledispatch variant actually taken, CTMCGrid.__init__ and other caller-visible edits the translator cannot see are exercised); a disagreement is a broken obligation 'correspondence TIE <group>'"]
 ASSUMPTIONS = ["mass a b = fine_process.model.mass, additive and non-negative on intervals NOT containing 0, respects == "
                "(C01_step_mass_is_a_measure for step measures; C09 is not formally composed)",
                "two middles mc (coarse level: used by refine and the coarse chain) and mf (refined level): strictly inside a gap, "
@@ -331,8 +333,29 @@ def oracle_level_1d(viol, c, q_coarse, axis_coarse, o_coarse, ctx, tol=Fr(1, 10 
             return
 
 
+def _tie_spot(res):
+    """cross-cutting TIE layer (DESIGN 2.2a): the GENERATED GenTie* definitions of GEN_DEPS (just regenerated and compiled by the driver)
+    against the RUNNING Python functions on real objects, dyadic inputs, exact, one coqc (harness/tie_selftest.py: prob_right, q_vector, intensity_1d, dispatch_c1d, dispatch_nd2)"""
+    try:
+        import tie_selftest
+        out = tie_selftest.selftest_spotchecks([m for m in GEN_DEPS if m.startswith("GenTie")], res.seed, name=PROP)
+    except Exception as e:  # noqa: BLE001 -- the implementation raised on a spot-check input, or the case file does not compile
+        res.broke("correspondence TIE spot check", f"could not run: {type(e).__name__}: {str(e)[-1500:]}")
+        return
+    if not out:
+        res.broke("correspondence TIE spot check", "no spot-check group of harness/tie_selftest.py is covered by the GenTie modules of GEN_DEPS")
+    for g, (n, bad) in sorted(out.items()):
+        for i in range(n):
+            res.count(("tie_spot", g, res.seed, i), kind="tie_spot")
+            res.bump("tie_spot", g)
+        if bad:
+            res.broke(f"correspondence TIE {g}", f"generated definition(s) of group {g} disagree with the running Python function on "
+                                                 f"{len(bad)} of {n} spot-check cases: indices {bad[:10]} (build/TIE/{PROP}.v)")
+
+
 def correspond(res):
     rng = random.Random(res.seed)
+    _tie_spot(res)
 
     def viol(what, **kw):
         res.violation(what, dict(kw))
